@@ -94,7 +94,8 @@ enum RData {
 
 #[derive(Clone, Debug, PartialEq)]
 enum Item {
-    Question(usize, Rtype),
+    /// (name, type, class)
+    Question(usize, Rtype, u16),
     Record(usize, u32, RData),
 }
 
@@ -109,8 +110,12 @@ enum Op {
     /// Back to the plain message builder (everything dropped), then on.
     ToBuilder,
     /// Push one TXT record at the root sized so that the message would be
-    /// exactly this many octets long (the 65535-octet boundary).
+    /// exactly this many octets long (the 65535-octet boundary; in front of
+    /// the 0x4000 pointer limit).
     FillTo(usize),
+    /// Start the message as the answer to a request with this question
+    /// (`MessageBuilder::start_answer` copies the question).
+    StartAnswer(usize, Rtype, u16),
     Rewind,
     SetLimit(usize),
     ClearLimit,
@@ -230,7 +235,7 @@ impl<T: Composer> Stage<T> {
     }
     fn push(&mut self, pool: &[String], item: &Item) -> Result<(), PushError> {
         match (self, item) {
-            (Stage::Q(b), Item::Question(n, t)) => b.push((nm(pool, *n), *t)),
+            (Stage::Q(b), Item::Question(n, t, c)) => b.push((nm(pool, *n), *t, Class::from_int(*c))),
             (st, Item::Record(o, ttl, rd)) => {
                 let owner = nm(pool, *o);
                 let ttl = Ttl::from_secs(*ttl);
@@ -282,12 +287,12 @@ struct Model {
     opt: Option<u16>,
 }
 
-fn expected_view(pool: &[String], m: &Model) -> (Vec<(String, Rtype)>, Vec<(u8, String, Rtype, u32, String)>) {
+fn expected_view(pool: &[String], m: &Model) -> (Vec<(String, Rtype, u16)>, Vec<(u8, String, Rtype, u32, String)>) {
     let mut qs = Vec::new();
     let mut rs = Vec::new();
     for (sec, it) in &m.items {
         match it {
-            Item::Question(n, t) => qs.push((pool[*n].to_ascii_lowercase(), *t)),
+            Item::Question(n, t, c) => qs.push((pool[*n].to_ascii_lowercase(), *t, *c)),
             Item::Record(o, ttl, rd) => {
                 let (t, text) = rdata_text(pool, rd);
                 rs.push((*sec, pool[*o].to_ascii_lowercase(), t, *ttl, text));
@@ -297,10 +302,10 @@ fn expected_view(pool: &[String], m: &Model) -> (Vec<(String, Rtype)>, Vec<(u8, 
     (qs, rs)
 }
 
-fn actual_view(bytes: &[u8]) -> Result<(Vec<(String, Rtype)>, Vec<(u8, String, Rtype, u32, String)>, Option<u16>, [u16; 4]), String> {
+fn actual_view(bytes: &[u8]) -> Result<(Vec<(String, Rtype, u16)>, Vec<(u8, String, Rtype, u32, String)>, Option<u16>, [u16; 4]), String> {
     let v = dns::view(bytes).ok_or("message does not parse")?;
     let dot = |s: &str| if s.ends_with('.') { s.to_ascii_lowercase() } else { format!("{}.", s.to_ascii_lowercase()) };
-    let qs = v.questions.iter().map(|(n, t, _)| (dot(n), *t)).collect();
+    let qs = v.questions.iter().map(|(n, t, c)| (dot(n), *t, c.to_int())).collect();
     let mut rs = Vec::new();
     for r in &v.recs {
         let text = match r.rtype {
@@ -386,6 +391,31 @@ fn execute<T: Composer>(pool: &[String], ops: &[Op], ctl: &SinkCtl, stream: bool
         };
         match op {
             Op::FillTo(_) => unreachable!(),
+            Op::StartAnswer(n, t, c) => {
+                if st.section() != 0 || !model.items.is_empty() {
+                    lens.push(ctl.bytes.borrow().len());
+                    continue;
+                }
+                let mut rb = MessageBuilder::new_vec();
+                rb.header_mut().set_id(0x1234);
+                let mut rq = rb.question();
+                rq.push((nm(pool, *n), *t, Class::from_int(*c))).unwrap();
+                let req = rq.into_message();
+                let s = std::mem::replace(&mut st, Stage::Gone);
+                let mb = match s {
+                    Stage::Q(b) => b.builder(),
+                    _ => unreachable!(),
+                };
+                match mb.start_answer(&req, domain::base::iana::Rcode::NOERROR) {
+                    Ok(ab) => {
+                        sim::stat("probe.started_as_answer_to_a_request");
+                        st = Stage::An(ab);
+                        model.items.push((0, Item::Question(*n, *t, *c)));
+                    }
+                    // The builder is gone: nothing further to look at.
+                    Err(_) => return Some(lens),
+                }
+            }
             Op::Push(item) => {
                 let sec = st.section();
                 let ok_here = matches!((sec, item), (0, Item::Question(..)) | (1..=3, Item::Record(..)));
@@ -522,6 +552,10 @@ fn gen_ops(pool: &[String], size_class: u64) -> Vec<Op> {
         }
     };
     let mut section = 0;
+    if sim::chance("ops.start_answer", 1, 5) {
+        ops.push(Op::StartAnswer(pick_name(), *sim::pick("ops.qtype", &[Rtype::A, Rtype::MX, Rtype::TXT]), *sim::pick("ops.qclass", &[1u16, 3, 255, 254])));
+        section = 1;
+    }
     for _ in 0..n {
         match sim::draw("ops.kind", 20) {
             0 | 1 if section < 3 => {
@@ -550,7 +584,7 @@ fn gen_ops(pool: &[String], size_class: u64) -> Vec<Op> {
                         ops.push(Op::NextSection);
                         section += 1;
                     } else {
-                        ops.push(Op::Push(Item::Question(pick_name(), *sim::pick("ops.qtype", &[Rtype::A, Rtype::MX, Rtype::TXT]))));
+                        ops.push(Op::Push(Item::Question(pick_name(), *sim::pick("ops.qtype", &[Rtype::A, Rtype::MX, Rtype::TXT]), *sim::pick("ops.qclass", &[1u16, 1, 1, 3, 255, 254]))));
                         continue;
                     }
                 }
@@ -588,6 +622,44 @@ fn gen_ops(pool: &[String], size_class: u64) -> Vec<Op> {
             ops.push(Op::NextSection);
         }
         ops.push(Op::FillTo(65_533 + sim::draw("ops.fill_to", 5) as usize));
+    }
+    if size_class == 3 {
+        // A record whose owner name starts exactly at, just before or just
+        // behind offset 0x4000 (the last one a compression pointer can
+        // address is 0x3FFF), then names that share its suffix.
+        if section == 0 {
+            ops.push(Op::NextSection);
+        }
+        ops.push(Op::FillTo(0x3FFF + sim::draw("ops.fill_to_ptr_limit", 3) as usize));
+        // Preferably a name no earlier record mentions (so that its labels
+        // are written out at that offset rather than pointed to).
+        let used: Vec<usize> = ops
+            .iter()
+            .flat_map(|o| match o {
+                Op::Push(Item::Record(o, _, rd)) => {
+                    let mut v = vec![*o];
+                    match rd {
+                        RData::Mx(_, i) | RData::Cname(i) | RData::Ns(i) => v.push(*i),
+                        RData::Soa(a, b, _) => {
+                            v.push(*a);
+                            v.push(*b);
+                        }
+                        _ => {}
+                    }
+                    v
+                }
+                Op::Push(Item::Question(n, _, _)) | Op::StartAnswer(n, _, _) => vec![*n],
+                _ => vec![],
+            })
+            .collect();
+        let fresh: Vec<usize> = (0..nn).filter(|i| !used.contains(i) && pool[*i] != ".").collect();
+        let base = if fresh.is_empty() { pick_name() } else { fresh[sim::draw("ops.fresh_name", fresh.len() as u64) as usize] };
+        ops.push(Op::Push(Item::Record(base, 60, RData::A(1))));
+        for _ in 0..2 + sim::draw("ops.after_ptr_limit", 3) {
+            let o = if sim::chance("ops.same_suffix", 2, 3) { base } else { pick_name() };
+            let rd = if sim::chance("ops.rdata_name", 1, 2) { RData::Ns(base) } else { RData::Mx(10, pick_name()) };
+            ops.push(Op::Push(Item::Record(o, 60, rd)));
+        }
     }
     ops
 }
